@@ -443,36 +443,79 @@ def r45(rep: Report, ctx: Ctx) -> None:
         ing_stmt[-1].targets[0], ast.Name) else None
     if model is None:
         raise AnalysisError("pv_to_puml_string: ingestion result not bound")
-    pm = ctx.index.parents(entry)
+    defs = ctx.defs(entry)
+    SHALLOW = {"list", "dict", "tuple", "set", "sorted", "iter", "reversed",
+               "filter", "map", "copy", "frozenset", "enumerate", "zip"}
+
+    def is_deepcopy(c: ast.Call) -> bool:
+        return (dotted(c.func) or "").split(".")[-1] == "deepcopy"
+
+    aliases = {model}
+
+    def may_alias(e: ast.AST) -> bool:
+        """May ``e`` evaluate to the model object, a view of it, or a
+        shallow copy (the Event objects themselves are shared)?"""
+        if isinstance(e, ast.Name):
+            return e.id in aliases
+        if isinstance(e, ast.IfExp):
+            return may_alias(e.body) or may_alias(e.orelse)
+        if isinstance(e, ast.BoolOp):
+            return any(may_alias(v) for v in e.values)
+        if isinstance(e, (ast.Attribute, ast.Subscript, ast.Starred)):
+            return may_alias(e.value)
+        if isinstance(e, ast.NamedExpr):
+            return may_alias(e.value)
+        if isinstance(e, ast.Call):
+            if is_deepcopy(e):
+                return False
+            if isinstance(e.func, ast.Attribute) and may_alias(e.func.value):
+                return True        # .values() / .items() / .copy() / .get()
+            if (dotted(e.func) or "").split(".")[-1] in SHALLOW:
+                return any(may_alias(x) for x in e.args)
+            return False
+        if isinstance(e, (ast.ListComp, ast.SetComp, ast.GeneratorExp)):
+            return any(may_alias(g.iter) for g in e.generators)
+        if isinstance(e, ast.DictComp):
+            return any(may_alias(g.iter) for g in e.generators)
+        if isinstance(e, (ast.Tuple, ast.List, ast.Set)):
+            return any(may_alias(x) for x in e.elts)
+        return False
+
+    changed = True
+    while changed:
+        changed = False
+        for name, bs in defs.bindings.items():
+            if name in aliases:
+                continue
+            for b in bs:
+                if b.value is not None and b.kind in (
+                        "assign", "for", "comp", "with") and getattr(
+                        b.stmt, "lineno", 0) > ing_stmt[-1].lineno \
+                        and may_alias(b.value):
+                    aliases.add(name)
+                    changed = True
+    rep.analysed["model_aliases"] = sorted(aliases)
     bad = []
     copies = 0
-    for n in ast.walk(entry.node):
-        if isinstance(n, ast.Name) and n.id == model and isinstance(
-                n.ctx, ast.Load) and n.lineno > ing_stmt[-1].lineno:
-            # climb to the innermost call that receives a value derived
-            # from the model by plain attribute/method access
-            cur: ast.AST = n
-            call = None
-            while cur is not None:
-                p = pm.get(cur)
-                if isinstance(p, ast.Call) and (cur in p.args or any(
-                        k.value is cur for k in p.keywords)):
-                    call = p
-                    break
-                if isinstance(p, (ast.Attribute, ast.Call, ast.Subscript)):
-                    cur = p
-                    continue
-                break
-            if call is not None and (dotted(call.func) or "").split(".")[-1] \
-                    == "deepcopy":
-                copies += 1
-                continue
-            if call is None:
-                continue
-            callees = [c.qualname for s in ctx.cg.sites_in(entry)
-                       if s.node is call for c in s.callees]
-            if any(q in mut for q in callees) or not callees:
-                bad.append((n, call))
+    for call in ast.walk(entry.node):
+        if not isinstance(call, ast.Call) or getattr(call, "lineno", 0) <= \
+                ing_stmt[-1].lineno:
+            continue
+        actuals = list(call.args) + [k.value for k in call.keywords]
+        if not any(may_alias(x) for x in actuals):
+            continue
+        if is_deepcopy(call):
+            copies += 1
+            continue
+        callees = [c.qualname for st in ctx.cg.sites_in(entry)
+                   if st.node is call for c in st.callees]
+        if not callees and (dotted(call.func) or "").split(".")[-1] in \
+                SHALLOW | {"len", "isinstance", "print", "bool", "str",
+                           "repr", "id", "any", "all"}:
+            continue
+        if any(q in mut for q in callees) or not callees:
+            arg = next(x for x in actuals if may_alias(x))
+            bad.append((arg, call))
     rep.ob("R4.5", "the learned model is deep-copied before the derived "
            "phases", copies >= 1, fi=entry, node=ing_stmt[-1],
            detail=f"{copies} deepcopy({model}) after the ingestion statement")
@@ -487,12 +530,12 @@ def r45(rep: Report, ctx: Ctx) -> None:
     # the graph is built from the copy
     cg_call = [c for c in ast.walk(entry.node) if isinstance(c, ast.Call)
                and call_name(c) == "create_graph_from_events"]
-    defs = ctx.defs(entry)
     ok = False
     if cg_call:
         src = defs.resolve_deep(cg_call[0].args[0])
         ok = any(isinstance(c, ast.Call) and (dotted(c.func) or "").endswith(
-            "deepcopy") for c in ast.walk(src))
+            "deepcopy") for c in ast.walk(src)) and not may_alias(
+                cg_call[0].args[0])
     rep.ob("R4.5", "the event graph is built from the copy", ok, fi=entry,
            node=cg_call[0] if cg_call else entry.node,
            detail="create_graph_from_events(deepcopy(events).values())")
